@@ -190,16 +190,28 @@ Theorem C14_index_get : forall (index_t : Type) (idx_decode : bytes -> option in
 Proof. exact index_get. Qed.
 Print Assumptions C14_index_get.
 
-(* index_head_truthful (the code after "fix: HEAD on the index server ..."): HEAD answers 200
-   iff the served directory has an entry of that name that can be opened.  As the code stands an
-   entry that exists but cannot be opened (DErr) is answered 404 as well -- HEAD has no way to
-   say "failed"; GET (above) answers 400 for it.  Reported as a known finding. *)
+(* index_head_truthful (the code after the three HEAD fixes): HEAD answers 200 iff the entry is a
+   file, 404 iff the served directory has NO entry of that name, and 400 -- an error for the
+   client, as GET -- for a directory or an entry that exists but cannot be opened *)
 Theorem C14_index_head_truthful : forall (index_t : Type) (idx_decode : bytes -> option index_t) idx_encode budget c d n auth,
   plain_name n -> authorized c auth ->
   remote_has_index index_t idx_decode idx_encode budget auth c d n =
-  (match dlookup n d with Some DErr => HasFalse | Some _ => HasTrue | None => HasFalse end, 1).
+  (match dlookup n d with Some (DFile _) => HasTrue | Some _ => HasErr | None => HasFalse end, 1).
 Proof. exact index_head. Qed.
 Print Assumptions C14_index_head_truthful.
+
+Theorem C14_index_head_404_iff_absent : forall (index_t : Type) (idx_decode : bytes -> option index_t) idx_encode budget c d n auth,
+  plain_name n -> authorized c auth ->
+  (fst (remote_has_index index_t idx_decode idx_encode budget auth c d n) = HasFalse <-> dlookup n d = None).
+Proof. exact index_head_missing_iff. Qed.
+Print Assumptions C14_index_head_404_iff_absent.
+
+(* the HEAD handler before those fixes ([index_head_status true]): every open error was 404 and a
+   directory was 200 -- "404 iff absent" and "200 only for an index" were both false for it *)
+Theorem C14_index_head_prefix_refuted :
+  status (index_head_status true OErr) = 404 /\ status (index_head_status true OIsDir) = 200.
+Proof. split; reflexivity. Qed.
+Print Assumptions C14_index_head_prefix_refuted.
 
 Theorem C14_index_put_get : forall (index_t : Type) (idx_decode : bytes -> option index_t) idx_encode,
   (forall ix, idx_decode (idx_encode ix) = Some ix) ->
@@ -212,29 +224,34 @@ Theorem C14_index_put_get : forall (index_t : Type) (idx_decode : bytes -> optio
 Proof. exact index_put_get. Qed.
 Print Assumptions C14_index_put_get.
 
-(* index server in front of a REMOTE index store: what the upstream delivers arrives, and an
-   upstream failure is never reported as "missing" ... *)
+(* index server in front of a REMOTE index store (after "fix: index server answers 404 when the
+   index is missing in a remote upstream store"): the client sees exactly what a direct client of
+   the upstream store would see -- the index, "missing", or an error -- for every upstream script *)
 Theorem C14_index_proxy : forall (index_t : Type) (idx_decode : bytes -> option index_t) idx_encode,
   (forall ix, idx_decode (idx_encode ix) = Some ix) ->
   forall budget budget_up rs_up,
   proxied_get_index index_t idx_decode idx_encode budget budget_up rs_up =
-  match fst (get_index index_t idx_decode budget_up rs_up) with
-  | IData ix => (IData ix, 1)
-  | IMissing => (IErr, 1)
-  | IErr => (IErr, 1)
-  end.
+  (fst (get_index index_t idx_decode budget_up rs_up), 1).
 Proof. exact proxied_index. Qed.
 Print Assumptions C14_index_proxy.
 
-(* ... but, as the code stands, an index that is MISSING upstream reaches the client as an error
-   too (HTTPIndexHandler.get tests os.IsNotExist, which NoSuchObject does not satisfy): "a missing
-   object is reported as missing" is false for a proxied index store.  Known finding. *)
-Definition index_proxy_missing_statement : Prop :=
+(* the handler before that fix ([proxied_get_index_prefix]) tested only os.IsNotExist, which
+   NoSuchObject does not satisfy: an index MISSING upstream reached the client as an error ... *)
+Theorem C14_index_proxy_prefix_missing_is_error : forall (index_t : Type) (idx_decode : bytes -> option index_t) idx_encode,
+  (forall ix, idx_decode (idx_encode ix) = Some ix) ->
+  forall budget budget_up rs_up,
+  fst (get_index index_t idx_decode budget_up rs_up) = IMissing ->
+  proxied_get_index_prefix index_t idx_decode idx_encode budget budget_up rs_up = (IErr, 1).
+Proof. exact proxied_index_prefix. Qed.
+Print Assumptions C14_index_proxy_prefix_missing_is_error.
+
+(* ... so "a missing object is reported as missing" was false for it *)
+Definition index_proxy_prefix_missing_statement : Prop :=
   forall (index_t : Type) (idx_decode : bytes -> option index_t) (idx_encode : index_t -> bytes) budget budget_up rs_up,
     fst (get_index index_t idx_decode budget_up rs_up) = IMissing ->
-    fst (proxied_get_index index_t idx_decode idx_encode budget budget_up rs_up) = IMissing.
+    fst (proxied_get_index_prefix index_t idx_decode idx_encode budget budget_up rs_up) = IMissing.
 
-Theorem C14_index_proxy_missing_refuted : ~ index_proxy_missing_statement.
+Theorem C14_index_proxy_missing_refuted : ~ index_proxy_prefix_missing_statement.
 Proof.
   intros St. specialize (St bytes (fun b => Some b) (fun b => b) 1 1 (fun _ => Status 404 [])).
   vm_compute in St. specialize (St eq_refl). discriminate.
